@@ -2981,6 +2981,10 @@ def merge_dequant_lut_quant(op, arch, nng=None):
     if pre_op.type != Op.Dequantize:
         return op
 
+    # The merged operator must meet the documented constraints: IFM int8 or int16, IFM and OFM data types match
+    if pre_op.inputs[0].dtype not in (DataType.int8, DataType.int16) or pre_op.inputs[0].dtype != post_op.outputs[0].dtype:
+        return op
+
     lut_op.set_input_tensor(pre_op.inputs[0], 0)
     lut_op.set_output_tensor(post_op.outputs[0])
 
